@@ -1,6 +1,6 @@
 (* C18 property theorems (logic half; process-history determinism is exploration, see tools/checks/c18.py). *)
 From Coq Require Import List String Ascii.
-From Verif Require Import C18.Integrity C18.IntegrityProofs C18.SettingsModel C18.SettingsProofs C18.Anonymize.
+From Verif Require Import C18.Integrity C18.IntegrityProofs C18.SettingsModel C18.SettingsProofs C18.Anonymize C18.BundleSettings C18.BundleSettingsProofs.
 Import ListNotations.
 Open Scope string_scope.
 
@@ -41,6 +41,29 @@ Print Assumptions settings_roundtrip_exact.
 
 Theorem settings_roundtrip_stable : forall s s', from_dict (as_dict s) = Some s' -> from_dict (as_dict s') = Some s'.
 Proof. exact settings_rt_stable. Qed.
+
+(* bundle_roundtrip, settings part.  archive: MANIFEST/settings.json is json(as_dict) read with from_dict = settings_roundtrip
+   above.  solc_json: REFUTED -- the writer emits Settings.as_dict() keys (snake_case `disable_static_exceptions`,
+   `venom_flags`), the reader looks up `disableStaticExceptions` and `venom`; those settings are silently lost (replayed on the
+   compiler by the check: the recompiled bundle gives different bytecode).  Everything else round-trips. *)
+Theorem bundle_roundtrip_solc_json_settings_refuted :
+  exists s, json_read_settings false (json_write_settings s) <> Some (json_expected s).
+Proof. exact solc_json_settings_refuted. Qed.
+Print Assumptions bundle_roundtrip_solc_json_settings_refuted.
+
+Theorem bundle_roundtrip_solc_json_settings_partial : forall s, lossless s ->
+  json_read_settings false (json_write_settings s) = Some (json_expected s).
+Proof. exact solc_json_settings_partial. Qed.
+Print Assumptions bundle_roundtrip_solc_json_settings_partial.
+
+(* with the reader repaired to accept the exported keys the round trip holds for every setting *)
+Theorem bundle_roundtrip_solc_json_settings_fixed : forall s,
+  json_read_settings true (json_write_settings s) = Some (json_expected s).
+Proof. exact solc_json_settings_fixed. Qed.
+Print Assumptions bundle_roundtrip_solc_json_settings_fixed.
+
+Theorem bundle_roundtrip_archive_settings : forall s, from_dict (as_dict s) = Some (norm s).
+Proof. exact settings_rt. Qed.
 
 (* DESIGN's `anonymize_injective_on_inputs` is FALSE for the faithful model: `../lib.vy` and `0/lib.vy` get the
    same bundle key (replayed on the real compiler by the check: a source is silently dropped from the bundle). *)
